@@ -1,5 +1,6 @@
 """first-order / quantifier part of C13: reported amount is zero exactly when no bound moved (an absent row
 reads as its world default)"""
+from common import size
 import streams
 from checks._folcommon import tabs_of, is_inference, moved, worlds_of, amount_of
 
@@ -18,7 +19,7 @@ def oracle(rec):
 
 
 def run(rep, tier, seed):
-    n = 100 if tier == "quick" else 2000
+    n = size(tier, 100, 2000)
     for name, quant in (("fol-qf", False), ("quant", True)):
         progs = [streams.gen_fol_program(seed + 11, k, quant=quant, crossed_p=0.05) for k in range(n)]
         for p in progs:
